@@ -195,10 +195,18 @@ func TestVerifC16Race(t *testing.T) {
 			set.NotifyLatencyChange(d, d.MustGetAlive(v.nt))
 			bit = set.Len() == 1
 			d.RegisterAliveDialerSet(set)
+			pairs := 1
+			if v.name == "two_racing_failures" {
+				pairs = 4 // eight racing failures: still exactly one death
+			}
 			var wg sync.WaitGroup
-			wg.Add(2)
-			go func() { defer wg.Done(); v.a(d, v.nt) }()
-			go func() { defer wg.Done(); v.b(d, v.nt) }()
+			start := make(chan struct{})
+			for k := 0; k < pairs; k++ {
+				wg.Add(2)
+				go func() { defer wg.Done(); <-start; v.a(d, v.nt) }()
+				go func() { defer wg.Done(); <-start; v.b(d, v.nt) }()
+			}
+			close(start)
 			wg.Wait()
 			alive, in := d.MustGetAlive(v.nt), set.Len() == 1
 			bad := alive != in
